@@ -10,7 +10,7 @@ TD = "time_delta::TimeDelta"
 def run(chk, tier):
     P = Prog("default")
     chk.configs.add("default")
-    for r in (r_consts, r_new_box, r_units, r_absint, r_derive, r_shape, r_sum):
+    for r in (r_consts, r_new_box, r_units, r_absint, r_derive, r_shape, r_sum, r_checked_through_new):
         chk.guarded(r, P, tier)
     chk.assume("exactness of checked_add/sub/mul/div results and the < 2 ns division bound are not decided (numerical content)")
     return {
@@ -174,3 +174,24 @@ def r_shape(chk, P, tier):
                             if s_[0] == "bin" and s_[1] == "Div" and const_of(s_[3]) is None:
                                 bad.append((name, pp(x)[:120]))
     chk.expect(not bad and n > 5, "mul-of-quotient", "a truncated quotient is multiplied (precision lost before scaling): %s" % bad[:2])
+
+
+def r_checked_through_new(chk, P, tier):
+    """no shortcut around the range check: every value checked_add / checked_sub return is the result of TimeDelta::new (or the operand handed through
+    unchanged by an identity that term identity can see - none today)"""
+    chk.rule("DOM.checked_new", "every Some of TimeDelta::checked_add / checked_sub is the value of TimeDelta::new on that path", floor=2)
+    for name in ("checked_add", "checked_sub"):
+        fn = TD + "::" + name
+        bad = 0
+        n = 0
+        for p in Sym(P, fn).paths():
+            if p.end[0] != "return":
+                continue
+            r = p.ret
+            if r[0] == "agg" and r[3] == "None":
+                continue
+            n += 1
+            is_new = is_call(r, name=TD + "::new") or (r[0] == "agg" and r[3] == "Some" and is_call(r[4][0], name=TD + "::new"))
+            if not is_new:
+                bad += 1
+        chk.expect(n > 0 and bad == 0, name, "%s returns a value on %d of %d paths that is not the result of TimeDelta::new (a shortcut around the range check and the carry normalisation)" % (fn, bad, n), loc=P.loc(fn))
